@@ -99,13 +99,15 @@ Definition adopt_results (c : cfg) (g : gstate) (o : obs) : gstate :=
               (combine catalog ores) (d_results d) in
   {| g_no := g_no g; g_d := set_results rs d; g_m := g_m g |}.
 
-Fixpoint run_check (c : cfg) (g : gstate) (ops : list (op * obs)) (i : nat) : list (nat * list N) :=
+(** every step carries the fork version of the block it is executed in *)
+Fixpoint run_check (c0 : cfg) (g : gstate) (ops : list (Z * (op * obs))) (i : nat) : list (nat * list N) :=
   match ops with
   | [] => []
-  | (o, ob) :: r =>
+  | (v, (o, ob)) :: r =>
+    let c := set_ver v c0 in
     let '(e, g') := step c g o in
     match obs_bad c e g' ob with
-    | [] => run_check c (adopt_results c g' ob) r (S i)
+    | [] => run_check c0 (adopt_results c g' ob) r (S i)
     | bad => [(i, bad)]       (* stop at the first differing step *)
     end
   end.
@@ -114,7 +116,7 @@ Fixpoint run_check (c : cfg) (g : gstate) (ops : list (op * obs)) (i : nat) : li
     implementation's dump by checks/C15.py) — used for Examples *)
 Definition sum_stakes (d : durable) : Z := fold_right (fun e acc => st_amount (snd e) + acc) 0 (d_stakes d).
 
-Definition scenario := (cfg * gstate * list (op * obs))%type.
+Definition scenario := (cfg * gstate * list (Z * (op * obs)))%type.
 Definition scenario_bad (s : scenario) : list (nat * list N) :=
   let '(c, g, ops) := s in run_check c g ops 0.
 
